@@ -237,12 +237,12 @@ md5_ctx_mgr_submit(ISAL_MD5_HASH_CTX_MGR *mgr, ISAL_MD5_HASH_CTX *ctx, const voi
 /**
  * @brief Finish all submitted MD5 jobs and return when complete.
  * @requires SSE4.1 or AVX or AVX2 or AVX512
- * @deprecated Please use isal_md5_ctx_mgr_submit() instead.
+ * @deprecated Please use isal_md5_ctx_mgr_flush() instead.
  *
  * @param mgr	Structure holding context level state info
  * @returns NULL if no jobs to complete or pointer to jobs structure.
  */
-ISAL_DEPRECATED("Please use isal_md5_ctx_mgr_submit() instead")
+ISAL_DEPRECATED("Please use isal_md5_ctx_mgr_flush() instead")
 ISAL_MD5_HASH_CTX *
 md5_ctx_mgr_flush(ISAL_MD5_HASH_CTX_MGR *mgr);
 
